@@ -71,12 +71,12 @@ def tt_union_rows(MatrixA: np.ndarray, MatrixB: np.ndarray) -> np.ndarray:
     if MatrixA.size > 0:
         MatrixAUnique, idxA = np.unique(MatrixA, axis=0, return_index=True)
     else:
-        MatrixA = MatrixAUnique = np.empty(shape=MatrixB.shape)
+        MatrixA = MatrixAUnique = np.empty(shape=MatrixB.shape, dtype=MatrixB.dtype)
         idxA = np.array([], dtype=int)
     if MatrixB.size > 0:
         MatrixBUnique, idxB = np.unique(MatrixB, axis=0, return_index=True)
     else:
-        MatrixB = MatrixBUnique = np.empty(shape=MatrixA.shape)
+        MatrixB = MatrixBUnique = np.empty(shape=MatrixA.shape, dtype=MatrixA.dtype)
         idxB = np.array([], dtype=int)
     _, location = tt_ismember_rows(
         MatrixBUnique[np.argsort(idxB)], MatrixAUnique[np.argsort(idxA)]
